@@ -686,6 +686,10 @@ def call_pandas(it, fn, args, kwargs, node, fr):
                 sp = sp or getattr(v, "space", None)
             f.space = Space("DataFrame", parent=sp, how="same") if sp is None else sp
             f.labels_positional = True
+            labs_ = [getattr(v, "lab", None) for v in data.items.values() if getattr(v, "lab", None) is not None]
+            if labs_:  # a table built from columns keeps their row labels
+                f.labels_positional = labs_[0][0] == "pos"
+                f.lab_root = labs_[0][1]
             f.created_from = data
             return f
         names = None
@@ -769,6 +773,8 @@ def call_pandas(it, fn, args, kwargs, node, fr):
         f.space.parts = [g.space for g in frames]
         ig = kwargs.get("ignore_index")
         f.labels_positional = bool(ig is not None and is_pyconst(ig) and pyval(ig))
+        if f.labels_positional:
+            f.lab_root = object()
         f.notes = [n for g in frames for n in g.notes] + [("concat", len(frames))]
         f.concat_of = frames
         return f
@@ -947,6 +953,7 @@ def frame_method(it, f, name, args, kwargs, node, fr):
                 if tgt.order is not None:
                     tgt.order = ["index"] + tgt.order
         tgt.labels_positional = True
+        tgt.lab_root = object()
         return K(None) if tgt is f else tgt
     if name == "sort_values":
         by = argn(args, kwargs, 0, "by")
@@ -955,7 +962,9 @@ def frame_method(it, f, name, args, kwargs, node, fr):
         tgt = f if inplace is True else f.clone()
         tgt.notes.append(("sort_values", to_term(by), to_term(asc)))
         tgt.space = Space("sorted", parent=f.space, how="sort")
-        tgt.labels_positional = False
+        tgt.labels_positional = _flag(kwargs, "ignore_index") is True
+        if tgt.labels_positional:
+            tgt.lab_root = object()
         return K(None) if tgt is f else tgt
     if name == "sort_index":
         tgt = f.clone()
@@ -1161,6 +1170,10 @@ def val_method(it, v, name, args, kwargs, node, fr):
         if name == "reshape":
             it.record("reshape", "reshape", [v] + args, kwargs, node)
         r = Val(v.term, space=v.space, pos_of=v.pos_of, series=v.series and name in ("copy", "astype", "reset_index"))
+        if getattr(v, "lab", None) is not None and name in ("copy", "astype"):
+            r.lab = v.lab
+        if getattr(v, "lab", None) is not None and name == "reset_index":
+            r.lab = ("pos", object())
         for a in ("of_frame", "colname", "sorted_by", "descending", "alloc", "mask", "axes", "alloc_shape"):
             if hasattr(v, a):
                 setattr(r, a, getattr(v, a))
